@@ -181,6 +181,7 @@ def run(ctx: Ctx, only=None):
                            '(key set of the element class, values of the right JSON type, legal direction words, '
                            'identifiers in scope names); ill-formed input is decided on the bounded corpus of C15')
     install_tree_contracts(I, ctx)
+    NT = I.load_module('dznpy.scoping').globals['NamespaceTree']
     try:
         for fname, sname, specname in DECLS:
             if only and fname not in only:
